@@ -538,6 +538,7 @@ public:
   {
     if (hasNode(nodeObject))
       throw Exception("AssociationGraphImplObserver::associateNode : node already exists: " + nodeToString(nodeObject));
+    getGraph()->nodeMustExist_(graphNode, "node to associate");
 
     // nodes vector must be the right size. Eg: to store a node with
     // the ID 3, the vector must be of size 4: {0,1,2,3} (size = 4)
@@ -558,6 +559,7 @@ public:
   {
     if (hasEdge(edgeObject))
       throw Exception("AssociationGraphImplObserver::associateEdge : edge already exists: " + edgeToString(edgeObject));
+    getGraph()->edgeMustExist_(graphEdge, "edge to associate");
 
     // edges vector must be the right size. Eg: to store an edge with
     // the ID 3, the vector must be of size 4: {0,1,2,3} (size = 4)
